@@ -104,7 +104,7 @@ static void sharing_case(Ctx& c, uint64_t index) {
 void vf_run_case(Ctx& c, uint64_t index) {
   if (c.mode == "sharing") { sharing_case(c, index); return; }
   Rng r(c.seed, 14, index);
-  HistOpt ho; ho.ndocs = (int)r.range(1, 2); ho.nrefs = 4; ho.key_pool = (int)r.range(2, 8); ho.max_nodes = 80; ho.numeric_strings_heavy = true; ho.deser = false; ho.binext = false;
+  HistOpt ho; ho.ndocs = (int)r.range(1, 2); ho.nrefs = 4; ho.key_pool = (int)r.range(2, 8); ho.max_nodes = 80; ho.numeric_strings_heavy = true; ho.deser = false; ho.binext = false; ho.float32_only = !kUseDouble;
   Model m(ho.ndocs, ho.nrefs);
   Rng rA(1), rB(1), rC(1);   // typed-setter choices must be identical in the three replays
   AjExec A(ho.ndocs, ho.nrefs), B(ho.ndocs, ho.nrefs), C(ho.ndocs, ho.nrefs);
